@@ -101,7 +101,7 @@ func runC16(ctx *Ctx) {
 		runC16Merge(ctx)
 		return
 	}
-	if r.Intn(6) == 0 {
+	if r.Intn(4) == 0 {
 		runC16CLI(ctx)
 		return
 	}
